@@ -740,6 +740,17 @@ def checker_call(ctx, func, call):
     return fold_const_subscripts(Sub().visit(clone(body[0].test)))
 
 
+def ifexp_alternatives(ctx, func, e, base=frozenset()):
+    """A value written as (nested) conditional expressions, as its
+    alternatives: [(guard atoms, leaf expression)]."""
+    if isinstance(e, ast.IfExp):
+        return ifexp_alternatives(ctx, func, e.body,
+                                  base | frozenset(catoms(ctx, func, e.test, True))) + \
+            ifexp_alternatives(ctx, func, e.orelse,
+                               base | frozenset(catoms(ctx, func, e.test, False)))
+    return [(frozenset(base), e)]
+
+
 def T(text_, pol=True):
     """Canonical truth atom."""
     return ("truth", text_.replace(" ", ""), pol)
